@@ -13,7 +13,9 @@ SRCS = ["src/big", "src/small", "src/empty"]
 METAS = [({}, {}), ({"content-type": "text/plain; charset=utf-8"}, {"alpha": "1"}), ({"content-type": "application/x-c08", "cache-control": "no-store"}, {"k1": "v 1", "k2": "v=2"})]
 ERR = {1: "NoSuchUpload", 2: "InvalidPart", 3: "InvalidPartOrder", 4: "EntityTooSmall", 5: "InvalidArgument", 6: "InvalidRequest", 7: "NoSuchKey"}
 RANGES = ["", "bytes=0-15", "bytes=16-99", "bytes=0-", "bytes=17-", "bytes=5-5", "bytes=0-5242879", "bytes=100-5242979", "bytes=5242880-", "bytes=99999999-", "bytes=0-99999999", "bytes=10-5",
-          "bytes=-5", "bytes=a-b", "bytes=1", "byte=0-5", "bytes=0-5,7-9", "bytes= 0-5", "bytes=+1-20", "0-5", "bytes=0x10-20", "bytes=16-16"]
+          "bytes=-5", "bytes=a-b", "bytes=1", "byte=0-5", "bytes=0-5,7-9", "bytes= 0-5", "bytes=+1-20", "0-5", "bytes=0x10-20", "bytes=16-16",
+          # the last position equal to the source's size (one past its last byte), and its last byte
+          "bytes=0-100", "bytes=50-100", "bytes=0-99", "bytes=99-99", "bytes=100-100", "bytes=0-5246976", "bytes=5246975-5246976", "bytes=0-5246975"]
 
 _blobs = {}
 
